@@ -31,7 +31,7 @@ ASSUMPTIONS = [
 REQUIRED_CLASSES = ["outcome:returned", "outcome:raised-restored", "outcome:raised-not-restored(flag off)",
                     "cause:RuntimeError", "cause:ActionFault", "with-disabled-knobs",
                     "with-disabled-targets", "prologue:clear_log", "prologue:step", "prologue:step-then-disable",
-                    "prologue:solved-before(success)", "broyden"]
+                    "prologue:solved-before(success)", "broyden", "constructed-inactive-then-enabled"]
 
 
 @st.composite
@@ -39,13 +39,25 @@ def cases(draw):
     spec = draw(OG.problems(faults=True, max_step="mixed" if draw(st.booleans()) else "none"))
     spec["prologue"] = draw(st.sampled_from(["none", "none", "step", "clear_log", "step+clear_log", "step-then-disable",
                                              "step-then-disable", "solved-before", "solved-before"]))
+    # knobs / targets that are inactive when the optimizer is constructed (so log row 0 records them inactive) and are
+    # enabled before solve(): a failing solve must put their VALUES back too, not only their flags
+    n, m = spec["n"], spec["m"]
+    spec["inactive_at_construction_vary"] = []
+    spec["inactive_at_construction_targets"] = []
+    if draw(st.integers(0, 3)) == 0 and n > 1:
+        spec["inactive_at_construction_vary"] = [draw(st.integers(0, n - 1))]
+        spec["disabled_vary"] = [i for i in spec["disabled_vary"] if i not in spec["inactive_at_construction_vary"]]
+    if draw(st.integers(0, 5)) == 0 and m > 1:
+        spec["inactive_at_construction_targets"] = [draw(st.integers(0, m - 1))]
+        spec["disabled_targets"] = [i for i in spec["disabled_targets"] if i not in spec["inactive_at_construction_targets"]]
     spec["kind"] = "solve"
     return spec
 
 
 def exec_case(ctx, spec):
     classes = {"solve", "family:" + spec["family"], "shape:" + spec["shape"], "targets:" + spec["target_mode"]}
-    rendered = dict(OG.render(spec), prologue=spec["prologue"])
+    rendered = dict(OG.render(spec), prologue=spec["prologue"],
+                    inactive_at_construction=[spec.get("inactive_at_construction_vary"), spec.get("inactive_at_construction_targets")])
     state = {"nt": False}
 
     def finish(f):
@@ -59,6 +71,12 @@ def exec_case(ctx, spec):
         return finish(None)
     opt = b.opt
     try:
+        if spec.get("inactive_at_construction_vary") or spec.get("inactive_at_construction_targets"):
+            classes.add("constructed-inactive-then-enabled")
+            if spec.get("inactive_at_construction_vary"):
+                opt.enable(vary=list(spec["inactive_at_construction_vary"]))
+            if spec.get("inactive_at_construction_targets"):
+                opt.enable(target=list(spec["inactive_at_construction_targets"]))
         if spec["prologue"] == "step-then-disable":
             # knobs move while active, are disabled afterwards: a later restore must still reset them
             classes.add("prologue:step-then-disable")
